@@ -540,6 +540,13 @@ DENSE = [
     "k7/PPPPPPPP/8/8/8/8/pppppppp/K7 w - - 0 1",
     "NNNNNNNk/NNNNNNN1/NNNNNNNN/NNNNNNNN/NNNNNNNN/NNNNNNNN/NNNNNNNN/KNNNNNNN w - - 0 1",
     "Q1Q1Q1Qk/1Q1Q1Q2/Q1Q1Q1Q1/1Q1Q1Q1Q/Q1Q1Q1Q1/1Q1Q1Q1Q/Q1Q1Q1Q1/KQ1Q1Q1Q w - - 0 1",
+    # pawns on the first and last ranks (the reader accepts them): no square in front of them
+    "P2qk3/8/8/8/8/8/8/3QK3 w - - 0 1",
+    "1P2k3/8/8/8/8/8/8/R3K2R w KQ - 0 1",
+    "PPPPPPP1/8/8/8/8/7k/8/7K w - - 0 1",
+    "4k3/8/8/8/8/8/8/p2pK2p b - - 0 1",
+    "4k2P/8/8/8/8/8/8/p3K3 b - - 0 1",
+    "pppp4/4k3/8/8/8/8/4K3/PPPP4 w - - 0 1",
 ]
 
 
